@@ -9,7 +9,7 @@ def run(ctx, res):
     ctx.build()
     res.rule = ("TLC enumerates every string of up to 3 (thorough: 4, strided) tokens over a 56-token alphabet built from the lexer's special cases (( ) [ ] { } | \\ ? * + ^ $ . - , : < > ' = ! # "
                 "P k p digits letters \\p{ (?< (?' (?( [: \\x{ \\u \\c \\k< \\G \\b {2, -[ an astral rune, bytes 0xFF and 0x00, blanks); plus every file of the repository's 1 883-file parser "
-                "corpus and every string literal of the repository's own *_test.go files (quick: every 8th), the latter two also on subjects derived from the pattern's own words "
+                "corpus and every string literal of the repository's own *_test.go files (quick: every 8th, and every pattern-like literal of 25+ characters), the latter two also on subjects derived from the pattern's own words "
                 "(ending on / starting with / containing its literals) and on the neighbouring literals of the same test file. Each pattern is compiled under 3 of 8 option subsets (i+x, RE2, ECMAScript, r+m, n+s, ECMAScript+Unicode, i+r+RE2) under recover; every compiled Regexp gets the "
                 "whole API (bool, find, iterate with all accessors, find-all, StartingAt with 7 offsets incl. out of range, Replace/ReplaceFunc with 4 counts, Split with 5 counts, "
                 "Escape/Unescape, 4 adapter methods) on hostile inputs (empty, invalid UTF-8, NUL, astral, a catastrophic one) under recover and a 20 s watchdog. Outcome classes per "
@@ -33,6 +33,8 @@ def run(ctx, res):
         os.remove(tpath)
         if d["patterns"] != len(lines) + d["corpus_files"] + d["harvested"] or (maxlen == 3 and d["harvested"] == 0) or d["compiled"] == 0 or d["argument_errors_seen"] == 0:
             raise vlib.Broken(f"replayer consumed {d['patterns']} of {len(lines)} token strings (+{d['corpus_files']} corpus files)")
+        if d.get("slow_calls_not_reproduced"):
+            ctx.log(f"note: {d['slow_calls_not_reproduced']} pattern(s) had a call exceeding the 20 s watchdog in the parallel run that returned normally when re-run alone (machine load; not a verdict)")
         ctx.log(f"maxlen={maxlen} stride={stride}: patterns={d['patterns']} compiled={d['compiled']} parse_errors={d['parse_errors']} calls={d['calls']} mismatches={len(d['mismatches'])}")
         for m in d["mismatches"]:
             res.violation(m)
